@@ -31,7 +31,7 @@ def register(reg):
              "forall(0, len(items), lambda a: forall(a, len(items), lambda b: key_ge(items, a, b)))")
 
     reg.contract(
-        "werkzeug/datastructures/accept.py:Accept._best_single_match", prop=P, self_model=Acc,
+        "werkzeug/datastructures/accept.py:Accept._best_single_match", modifies=[], prop=P, self_model=Acc,
         params={"match": "str"}, returns="Optional[Tuple[str, float]]",
         assumes=["fmi_def(self.__list__, match)"],
         ensures=[
